@@ -164,6 +164,11 @@ def check_file_set(ctx, db, params, pfile, kind, what, case, tag):
                           {'k': k + 1, 'name': name, 'text': text, 'group': grp, 'simulator_row': row}, wcase, 'pest')
             return False
     rec.hit('observations-compared-bit-for-bit', len(table))
+    recs = [r[3] for r in table if r[0] == 'recession']
+    if recs and recs != sorted(recs):
+        rec.hit('file-sets-with-non-monotone-simulated-recession')
+    if params['transmissivity'].get('zeta_max_cm') == 0 and params['transmissivity']['type'] == 'peatclsm':
+        rec.hit('file-sets-with-zero-ceiling')
     # levels: rise ascending, recession from highest to lowest
     rl = [r[1] for r in table if r[0] == 'rise']
     cl = [r[1] for r in table if r[0] == 'recession']
@@ -230,6 +235,12 @@ def random_params(rng, kind, zlo, zhi):
         m = rng.choice([rng.randint(2, 7), rng.randint(10, 12)])
         psy = {'type': 'spline', 'zeta_knots_mm': sorted(round(rng.uniform(zlo - 100, zhi + 50), rng.choice([1, 2, 4])) for _ in range(n)),
                'sy_knots': [rng.choice([round(rng.uniform(0.01, 1.0), 4), rng.uniform(0.01, 1.0)]) for _ in range(n)]}
+        if rng.random() < 0.3:
+            # strongly oscillating knot values: the interpolating cubic overshoots and can dip
+            # below zero between knots, so the simulated curves need not be monotone
+            lo_v, hi_v = rng.choice([(0.02, 0.6), (0.01, 0.9), (0.05, 0.5)])
+            psy['sy_knots'] = [hi_v if (i // 2) % 2 == 0 else lo_v for i in range(n)]
+            psy['zeta_knots_mm'] = [round(zlo - 20 + (zhi - zlo + 40) * i / (n - 1), 2) for i in range(n)]
         while len(set(psy['zeta_knots_mm'])) < n:
             psy['zeta_knots_mm'] = sorted(round(rng.uniform(zlo - 100, zhi + 50), 3) for _ in range(n))
         zk = sorted(rng.uniform(zlo - 200, zhi + 500) for _ in range(m))
@@ -241,7 +252,9 @@ def random_params(rng, kind, zlo, zhi):
               'minimum_transmissivity_m2_d': rng.choice([7.442, 10 ** rng.uniform(-3, 2)])}
         return {'specific_yield': psy, 'transmissivity': pT}
     return {'specific_yield': gen_params.peatclsm_sy(rng),
-            'transmissivity': {'type': 'peatclsm', 'Ksmacz0': 10 ** rng.uniform(-3, 2), 'alpha': rng.choice([3, 2.5, rng.uniform(1.1, 8)]), 'zeta_max_cm': round(zhi / 10 + rng.choice([1.0, 25.0]), 2)}}
+            'transmissivity': {'type': 'peatclsm', 'Ksmacz0': 10 ** rng.uniform(-3, 2), 'alpha': rng.choice([3, 2.5, rng.uniform(1.1, 8)]),
+                               # a ceiling at the peat surface (0 / 0.0) whenever every level is below it
+                               'zeta_max_cm': rng.choice([0, 0.0]) if (zhi < -1.0 and rng.random() < 0.5) else round(zhi / 10 + rng.choice([1.0, 25.0]), 2)}}
 
 
 def prepare_dataset(ctx, rng, index, planted=True):
